@@ -254,10 +254,9 @@ def grid_search(circuit_template: Union[CircuitTemplate, str], param_grid: Union
     param_grid.index = circuit_names
 
     # adjust input of simulation to combined network
+    # (in a new dictionary: the caller's dictionary keeps its keys and can be used for further calls)
     if inputs:
-        for inp_key, inp in inputs.copy().items():
-            inputs[f"all/{inp_key}"] = inp
-            inputs.pop(inp_key)
+        inputs = {f"all/{inp_key}": inp for inp_key, inp in inputs.items()}
 
     # adjust output of simulation to combined network
     outputs_new = {}
